@@ -172,3 +172,40 @@ func VerifC23_roundtrip() {
 	vrt.Assert(err == io.EOF, "C23/roundtrip-eof")
 	vrt.Assert(bytes.Equal(got, append(append([]byte{}, a...), b...)), "C23/roundtrip-data")
 }
+
+// VerifC23_roundtrip_sizes: one Write of a boundary size (around 4 KiB, 64 KiB and multiples) followed by a
+// second small write must decode to exactly the bytes written. Contents are concrete (only the size
+// arithmetic of the encoder/decoder is at stake); the small tail write is symbolic.
+func VerifC23_roundtrip_sizes() {
+	sizes := []int{1, 15, 16, 255, 256, 4095, 4096, 4097, 65534, 65535, 65536, 131070}
+	n := sizes[vrt.Choose("size", len(sizes))]
+	big := make([]byte, n)
+	for i := range big {
+		big[i] = byte(i*7 + 1)
+	}
+	tail := vrt.Bytes("tail", 2)
+	var wire bytes.Buffer
+	cw := newChunkedWriter(&wire)
+	_, e1 := cw.Write(big)
+	_, e2 := cw.Write(tail)
+	e3 := cw.Close()
+	vrt.Assert(e1 == nil && e2 == nil && e3 == nil, "C23/encode-no-error")
+	cr := newChunkedReader(bytes.NewReader(wire.Bytes()))
+	got := make([]byte, 0, n+2)
+	buf := make([]byte, 32768)
+	var err error
+	for i := 0; i < 64; i++ {
+		var k int
+		k, err = cr.Read(buf)
+		got = append(got, buf[:k]...)
+		if err != nil {
+			break
+		}
+	}
+	vrt.Assert(err == io.EOF, "C23/sizes-roundtrip-eof")
+	vrt.Assert(len(got) == n+2, "C23/sizes-roundtrip-length")
+	if len(got) == n+2 {
+		vrt.Assert(bytes.Equal(got[:n], big), "C23/sizes-roundtrip-data")
+		vrt.Assert(got[n] == tail[0] && got[n+1] == tail[1], "C23/sizes-roundtrip-tail")
+	}
+}
